@@ -83,7 +83,11 @@ def confirm(m, prop, case, decisions, inputs, want, hooks=False):
         return 'encoding-fault', rec
     sc = drv.scenario_json()
     rec['scenario'] = sc; rec['expected_obs'] = drv.obs; rec['expected_out'] = drv.outs
-    nat = native.run_native(sc, timeout=getattr(prop, 'NATIVE_TIMEOUT', 10.0), hooks=hooks)
+    tmo = getattr(prop, 'NATIVE_TIMEOUT', 10.0)
+    nat = native.run_native(sc, timeout=tmo, hooks=hooks)
+    if nat['status'] == 'hang' and not any((o or '').startswith('HANG') for o in drv.obs):
+        # the executor predicts no hang: the machine may just be busy; give the native run much more time once
+        nat = native.run_native(sc, timeout=tmo * 12, hooks=hooks)
     rec['native_status'] = nat['status']
     if nat['status'] == 'harness-error':
         rec['fault'] = 'vreplay rejected the scenario: ' + nat['stderr']
